@@ -41,7 +41,12 @@ Definition from_column_data (cd : coldata) (rows : Z) : option input_col :=
   | CDDense fs => Some (if zlen fs <? rows then ICNullableFloat rows (enumerate 0 fs) else ICFloat fs)
   | CDSparse l => Some (ICNullableFloat rows l)
   | CDI64 xs => Some (if zlen xs <? rows then ICNullableInt rows (enumerate 0 xs) else ICInt xs)
-  | CDString ss => if zlen ss =? rows then Some (ICStr ss) else None      (* assert! *)
+  (* History: until /repo 1c4a1c7 `assert!(data.len() == rows)` (finding F11).  Now a string column
+     shorter than its batch is padded with NULLs through the Mixed representation; a longer one
+     still fails the assertion. *)
+  | CDString ss =>
+      if zlen ss <? rows then Some (ICMixed (map RStr ss ++ repeat RNull (Z.to_nat (rows - zlen ss))))
+      else if zlen ss =? rows then Some (ICStr ss) else None                (* assert!(len <= rows) *)
   | CDEmpty => Some (ICNull rows)
   | CDSparseI64 l => Some (ICNullableInt rows l)
   | CDMixed vs => Some (ICMixed vs)
@@ -81,18 +86,24 @@ Definition batch_item := (option coldata * Z)%type.
 Fixpoint col_ops (created : bool) (before : Z) (items : list batch_item) : option (list push_op) :=
   match items with
   | [] => Some []
-  | (None, rows) :: r =>
-    match col_ops created (before + rows) r with
-    | Some ops => Some (if created then PNulls rows :: ops else ops)
-    | None => None
-    end
-  | (Some cd, rows) :: r =>
-    match from_column_data cd rows with
-    | None => None
-    | Some ic =>
-      match ops_of_input ic, col_ops true (before + rows) r with
-      | Some o1, Some o2 => Some ((if created then [] else [PNulls before]) ++ o1 ++ o2)
-      | _, _ => None
+  | (cd, rows) :: r =>
+    (* /repo 1eb96cd: ingest_efficient skips a table buffer with zero rows (before that: assertion in
+       push_typed_cols, finding F12) *)
+    if rows =? 0 then col_ops created before r else
+    match cd with
+    | None =>
+      match col_ops created (before + rows) r with
+      | Some ops => Some (if created then PNulls rows :: ops else ops)
+      | None => None
+      end
+    | Some cd =>
+      match from_column_data cd rows with
+      | None => None
+      | Some ic =>
+        match ops_of_input ic, col_ops true (before + rows) r with
+        | Some o1, Some o2 => Some ((if created then [] else [PNulls before]) ++ o1 ++ o2)
+        | _, _ => None
+        end
       end
     end
   end.
